@@ -215,9 +215,14 @@ func r11b(c *core.Ctx) {
 		}
 		a := acc{fn: fn}
 		core.EachInstr(fn, func(_ *ssa.BasicBlock, _ int, in ssa.Instruction) {
-			if bo, ok := in.(*ssa.BinOp); ok && bo.Op == token.LEQ && core.Expr(bo.X) == "len(label)" {
-				if k, isC := core.ConstInt(bo.Y); isC {
-					a.threshold = append(a.threshold, k)
+			if bo, ok := in.(*ssa.BinOp); ok {
+				// any spelling of the split: len <= T, len < T+1, len > T, len >= T+1, or with the operands swapped
+				if cm, isCmp := core.CmpOf(bo); isCmp && cm.Op == "<" {
+					if k, isC := core.ConstInt(cm.YV); isC && cm.X == "len(label)" { // len < k  (or its negation len >= k)
+						a.threshold = append(a.threshold, k-1)
+					} else if k, isC := core.ConstInt(cm.XV); isC && cm.Y == "len(label)" { // k < len (or len <= k)
+						a.threshold = append(a.threshold, k)
+					}
 				}
 			}
 			if call, ok := in.(*ssa.Call); ok && core.CallName(call) == "builtin.copy" && core.Expr(call.Call.Args[1]) == "label" {
